@@ -337,6 +337,18 @@ func runCheck(o CheckOpts) int {
 	}
 	fmt.Printf("govc: property=%s tier=%s functions=%d obligations=%d discharged=%d covers=%d/%d other=%d violations=%d wall=%.1fs\n",
 		o.Prop, o.Tier, len(reports), ev.Obligations, ev.Discharged, ev.CoversSat, ev.Covers, ev.OtherObligations, violations, ev.Wall)
+	nerr, firstErr := 0, ""
+	for _, ob := range all {
+		if ob.Result != nil && ob.Result.Output != "" {
+			nerr++
+			if firstErr == "" {
+				firstErr = ob.Name + ": " + ob.Result.Output
+			}
+		}
+	}
+	if nerr > 0 {
+		fmt.Printf("govc: note: %d obligations had a solver configuration reject the query (another configuration decided them); first: %s\n", nerr, firstLines(firstErr, 3))
+	}
 	if o.Verbose {
 		for _, ob := range all {
 			fmt.Printf("  %-9s %-8s %6.2fs %s  [%s]\n", ob.Result.Status, ob.Result.Solver, ob.Result.Seconds, ob.Name, strings.Join(ob.Tags, ","))
